@@ -4,6 +4,7 @@ package cache
 
 import (
 	"fmt"
+	"reflect"
 	"time"
 	"unsafe"
 
@@ -22,6 +23,24 @@ func VerifNewCacheOfSmall(n int, dflt time.Duration, ec EvictedCallbackOf[string
 	c := newXsyncMapOf[string, interface{}](ConfigOf[string, interface{}]{DefaultExpiration: dflt, CleanupInterval: 0, EvictedCallback: ec}).(*xsyncMapOfWrapper[string, interface{}])
 	c.items.(*xsync.MapOf[string, itemOf[interface{}]]).VerifShrinkTo(n)
 	return c
+}
+
+// verifFieldAddr: address of a (possibly promoted) field of the cache object, looked up by name at run time so that a
+// working tree that renames or merges the settings still builds with the harness (nil when there is no such field:
+// the trace acceptor then cannot classify the accesses to it and says so; every other mode is unaffected)
+func verifFieldAddr(obj interface{}, name string) unsafe.Pointer {
+	v := reflect.ValueOf(obj)
+	for v.Kind() == reflect.Ptr {
+		v = v.Elem()
+	}
+	if v.Kind() != reflect.Struct {
+		return nil
+	}
+	f := v.FieldByName(name)
+	if !f.IsValid() || !f.CanAddr() {
+		return nil
+	}
+	return unsafe.Pointer(f.UnsafeAddr())
 }
 
 // VerifNewMapOfWithHasher exposes xsync.NewMapOfWithHasher to the external key-type catalogue harness.
@@ -131,7 +150,7 @@ func VerifNewCacheTraced(n int, dflt time.Duration, ec EvictedCallback, ev func(
 	c := newXsyncMap(Config{DefaultExpiration: dflt, CleanupInterval: 0, EvictedCallback: ec}).(*xsyncMapWrapper)
 	c.items.(*xsync.Map).VerifShrinkTo(n)
 	c.items = tracedMap{inner: c.items, ev: ev}
-	return c, unsafe.Pointer(&c.defaultExpiration), unsafe.Pointer(&c.evictedCallback)
+	return c, verifFieldAddr(c, "defaultExpiration"), verifFieldAddr(c, "evictedCallback")
 }
 
 type tracedMapOf[K comparable, V any] struct {
@@ -225,5 +244,5 @@ func VerifNewCacheOfTraced(n int, dflt time.Duration, ec EvictedCallbackOf[strin
 			}
 			return fmt.Sprintf("%v@%d", i.v, i.e)
 		}}
-	return c, unsafe.Pointer(&c.defaultExpiration), unsafe.Pointer(&c.evictedCallback)
+	return c, verifFieldAddr(c, "defaultExpiration"), verifFieldAddr(c, "evictedCallback")
 }
